@@ -93,6 +93,8 @@ func main() {
 		s = runDeterm(*seed, *n, *shards, *out, tmp, h.GenParams{
 			MaxCap: *maxcap, MinOps: *minops, MaxOps: *maxops, BigEvery: *bigevery, Queries: 0, DetMode: true,
 		})
+	case "siftool":
+		s = runSiftool(*seed, *n, *shards, *out, tmp, *maxops, *thorough)
 	case "hostile":
 		s = runHostile(*seed, *n, *out, *thorough)
 	case "concurrent":
